@@ -367,6 +367,16 @@ def m_opt_closure(ctx):
     if kind == 'map_or_else':
         return ctx.forks([(s_, run(ctx.args[2], (p,), lambda x: x)), (Not(s_), run(ctx.args[1], (), lambda x: x))])
     return NotImplemented
+@model(r'^core::bool::<impl bool>::then::<.*>$')
+def m_bool_then(ctx):
+    b = ctx.term(ctx.args[0], 'bool'); eng = ctx.eng; dst = ctx.dst; tgt = ctx.tgt; clo = ctx.args[1]
+    def act(st2, fr2):
+        from .containers import call_closure
+        return call_closure(eng, st2, fr2, clo, (), _k_opt_map, (dst, tgt, some))
+    return ctx.forks([(b, act), (Not(b), none())])
+@model(r'^core::bool::<impl bool>::then_some::<.*>$')
+def m_bool_then_some(ctx):
+    b = ctx.term(ctx.args[0], 'bool'); return ctx.ret(opt(b, ctx.args[1]))
 def _k_goiw(eng, st, fr, kd, rv):
     dst, tgt, r = kd
     from .mir import parse_place
